@@ -7,6 +7,7 @@
    sequential history -- the one in lock-acquisition order. *)
 From Coq Require Import ZArith List Bool.
 From GoCoap Require Import Base.Bytes Base.Interleave NoResp.Model Gen.DedupConsts Dedup.Model Dedup.Proofs Dedup.Conc.
+From GoCoap Require Import Dedup.Method Dedup.Sweep.
 From GoCoap Require Dedup.Spec.
 Import ListNotations.
 Open Scope Z_scope.
@@ -271,6 +272,119 @@ Theorem C05_handler_once : forall typ m tok code ro b,
     o_called ob1 = true -> o_called ob2 = false.
 Proof. exact handler_once. Qed.
 Print Assumptions C05_handler_once.
+
+(* ================= part 1c: every request method (Dedup/Method.v) ================= *)
+
+(* The statements of part 1 do not constrain the code of the request.  Spelled out for the request methods -- every
+   code 0.01-0.31, FETCH 0.05 / PATCH 0.06 / iPATCH 0.07 of RFC 8132 included -- on the step whose decision to
+   remember the reply is gated by a predicate on the request's code ([step_g]; the code has no gate: [gate_all]). *)
+Theorem C05_every_method_code : forall s typ mid tok code ro b s1 o1 evs typ2 tok2 code2 ro2 b2,
+  is_method_code code = true -> is_method_code code2 = true ->
+  step_g gate_all s typ mid tok code ro b = (s1, o1) ->
+  is_cacheable_typ typ = true -> o_called o1 = true -> (typ = CON \/ o_out o1 <> []) ->
+  ages_ok evs -> total_age evs <= LIFETIME ->
+  is_cacheable_typ typ2 = true ->
+  let o2 := snd (step_g gate_all (final s1 evs) typ2 mid tok2 code2 ro2 b2) in
+  o_called o2 = false /\
+  exists r1 r2, o_out o1 = [r1] /\ o_out o2 = [r2] /\ same_content r2 r1 /\ w_mid r2 = mid /\
+                w_typ r2 = (if typ2 =? CON then ACK else NON).
+Proof. exact dedup_once_every_method. Qed.
+Print Assumptions C05_every_method_code.
+
+(* the ungated step is the model's step (the one the harness compares the implementation with) *)
+Theorem C05_no_method_gate : forall s typ mid tok code ro b,
+  step_g gate_all s typ mid tok code ro b = step s (Req typ mid tok code ro b).
+Proof. exact step_g_all. Qed.
+Print Assumptions C05_no_method_gate.
+
+(* A gate is invisible on the codes it lets through ... *)
+Theorem C05_method_gate_same_if_covered : forall gate s typ mid tok code ro b, gate code = true ->
+  step_g gate s typ mid tok code ro b = step s (Req typ mid tok code ro b).
+Proof. exact step_g_covered. Qed.
+Print Assumptions C05_method_gate_same_if_covered.
+
+(* ... and fatal on the others: from ANY state in which the ID is fresh, every copy of a request whose code the
+   gate leaves out is handed to the handler again (nothing was remembered). *)
+Theorem C05_method_gate_reexecutes : forall gate s typ mid tok code ro b typ2 tok2 ro2 b2,
+  gate code = false ->
+  cache_load (cache s) mid = None ->
+  let '(s1, o1) := step_g gate s typ mid tok code ro b in
+  let '(s2, o2) := step_g gate s1 typ2 mid tok2 code ro2 b2 in
+  o_called o1 = true /\ o_called o2 = true /\ cache s2 = cache s.
+Proof. exact gate_reexecutes. Qed.
+Print Assumptions C05_method_gate_reexecutes.
+
+(* The range GET..DELETE leaves out exactly the methods 0.05-0.31; witnesses FETCH, PATCH, iPATCH. *)
+Theorem C05_method_range_misses : forall c, is_method_code c = true -> (gate_range c = false <-> 5 <= c <= 31).
+Proof. exact range_misses. Qed.
+Print Assumptions C05_method_range_misses.
+
+Theorem C05_method_range_refuted :
+  is_method_code FETCH = true /\ is_method_code PATCH = true /\ is_method_code IPATCH = true /\
+  demo_calls gate_all FETCH = [true; false] /\ demo_calls gate_all PATCH = [true; false] /\ demo_calls gate_all IPATCH = [true; false] /\
+  demo_calls gate_range 1 = [true; false] /\ demo_calls gate_range 4 = [true; false] /\
+  demo_calls gate_range FETCH = [true; true] /\ demo_calls gate_range PATCH = [true; true] /\ demo_calls gate_range IPATCH = [true; true].
+Proof. exact method_range_refuted. Qed.
+Print Assumptions C05_method_range_refuted.
+
+(* ================= part 3: sweeps in flight (Dedup/Sweep.v) ================= *)
+
+(* The housekeeping sweep is not atomic: between "this element is expired" and its removal the reader loop processes
+   requests -- a message ID used again after the lifetime stores its fresh reply under the key the sweep is about to
+   remove.  [SDel k e] is the removal step of a sweep that examined element e under key k at some earlier time;
+   [DCas same] removes as the code does: only if the key still holds the examined element ([same]: the pointer
+   comparison) and that element is expired.  For EVERY [same], every state with unique keys (every reachable one),
+   every interleaving l of events and removal steps and every continuation: all observations are those of the
+   history without the removal steps.  Hence parts 1 and 2 hold with any number of sweeps in flight. *)
+Theorem C05_sweep_unobservable : forall same s l rest,
+  nodupk (cache s) -> ages_ok (evs_of l) -> ages_ok rest ->
+  snd (srun (DCas same) s l) = snd (run s (evs_of l)) /\
+  snd (run (fst (srun (DCas same) s l)) rest) = snd (run (final s (evs_of l)) rest).
+Proof. exact sweep_unobservable. Qed.
+Print Assumptions C05_sweep_unobservable.
+
+Theorem C05_sweep_unobservable_reachable : forall same own0 pre l rest,
+  ages_ok (evs_of l) -> ages_ok rest ->
+  let s := final (init own0) pre in
+  snd (srun (DCas same) s l) = snd (run s (evs_of l)) /\
+  snd (run (fst (srun (DCas same) s l)) rest) = snd (run (final s (evs_of l)) rest).
+Proof. exact sweep_unobservable_reachable. Qed.
+Print Assumptions C05_sweep_unobservable_reachable.
+
+(* The property itself with sweeps in flight. *)
+Theorem C05_once_same_reply_sweeps : forall same s typ mid tok code ro b s1 o1 l typ2 tok2 code2 ro2 b2,
+  nodupk (cache s) ->
+  step s (Req typ mid tok code ro b) = (s1, o1) ->
+  is_cacheable_typ typ = true -> o_called o1 = true -> (typ = CON \/ o_out o1 <> []) ->
+  ages_ok (evs_of l) -> total_age (evs_of l) <= LIFETIME ->
+  is_cacheable_typ typ2 = true ->
+  let o2 := snd (step (fst (srun (DCas same) s1 l)) (Req typ2 mid tok2 code2 ro2 b2)) in
+  o_called o2 = false /\
+  exists r1 r2, o_out o1 = [r1] /\ o_out o2 = [r2] /\ same_content r2 r1 /\ w_mid r2 = mid /\
+                w_typ r2 = (if typ2 =? CON then ACK else NON).
+Proof. exact dedup_once_sweeps. Qed.
+Print Assumptions C05_once_same_reply_sweeps.
+
+(* Removal by key ([DKey]: LoadAndDelete) instead: a request that re-uses the ID between examination and removal
+   loses its reply -- from ANY state in which the ID has no valid reply, the next copy is handled again ... *)
+Theorem C05_key_delete_reexecutes : forall s typ mid tok code ro b e tok2 code2 ro2 b2,
+  is_cacheable_typ typ = true ->
+  req_lookup typ mid (cache s) = None ->
+  forall s1 os, srun DKey s [SEv (Req typ mid tok code ro b); SDel mid e; SEv (Req typ mid tok2 code2 ro2 b2)] = (s1, os) ->
+  map o_called os = [true; true].
+Proof. exact key_delete_reexecutes. Qed.
+Print Assumptions C05_key_delete_reexecutes.
+
+(* ... and a complete execution in which the removal step is justified by a real examination ([examined_ok]): first
+   use of ID 9029 + copy, 248 s, the sweep sees the expired reply, the ID is used again, the sweep removes, copies of
+   the second use at once / after 246 s.  The code calls the handler for the two uses only. *)
+Theorem C05_key_delete_refuted :
+  examined_ok DKey (init 4096) [] demo_items = true /\
+  calls (DCas entry_same) = [true; false; false; true; false; false; false] /\
+  calls (DCas (fun _ _ => true)) = [true; false; false; true; false; false; false] /\
+  calls DKey = [true; false; false; true; true; false; false].
+Proof. exact key_delete_refuted. Qed.
+Print Assumptions C05_key_delete_refuted.
 
 (* non-vacuity: a NON request answered 2.05, the same request again 246 s later (not re-executed,
    same reply, retargeted), and again after a further 2 s (fresh) *)
